@@ -19,6 +19,7 @@ pub mod c12;
 pub mod c13;
 #[cfg(feature = "pure")]
 pub mod c14;
+pub mod c15;
 #[cfg(feature = "pure")]
 pub mod c16;
 pub mod c17;
@@ -46,6 +47,7 @@ pub fn run(ctx: &Ctx) -> Option<Report> {
         "C13" => c13::run(ctx),
         #[cfg(feature = "pure")]
         "C14" => c14::run(ctx),
+        "C15" => c15::run(ctx),
         #[cfg(feature = "pure")]
         "C16" => c16::run(ctx),
         "C17" => c17::run(ctx),
